@@ -19,6 +19,8 @@ if [ -n "$demo" ]; then
   if [ -f $S/demo_wiring.diff ]; then
     # in-crate demo: the wiring diff names the module; the file goes next to the module it extends
     target=$(grep -E "^\+\+\+ b/" $S/demo_wiring.diff | head -1 | sed 's#+++ b/##; s#\.rs$##')
+    # a module declared in a mod.rs lives next to it, one declared in x.rs lives in x/
+    if [ "$(basename $target)" = "mod" ] || [ "$(basename $target)" = "lib" ]; then target=$(dirname $target); fi
     mkdir -p $target; cp $demo $target/$name.rs
     git apply $S/demo_wiring.diff
     cargo test --offline --lib $name > $S/.demo_with.log 2>&1; res_demo_with=$?
